@@ -142,6 +142,10 @@ func c04(c *Ctx) {
 	// ---- block arithmetic ----
 	c.Expect("block-arith/map", joinS(c.returnsOf("litefs.pageChksumBlock")), pat("((p0 - 1) / 256)"), "pageChksumBlock(p) = (p-1)/256", "")
 	rb := "litefs.(*DB).recomputeBlockChksum"
+	c.Guarded("block-arith/recompute-whole-block", rb, p.Writes("litefs.DB.chksums.blocks[]"), gs(G(`^\(phi\(\(↺ \+ 1\)\|0\) < 256\)$`, false)), 1,
+		"the block aggregate is stored only after the loop has run over all 256 page slots of the block (no early exit)", "a zero page checksum is not the end of the database: the lock page has one, and it is the first page of its block at every page size - every page behind it would drop out of the checksum of a database larger than 1 GiB")
+	c.Expect("block-arith/recompute-sum", joinS(c.fieldStoreVals(rb, "litefs.DB.chksums.blocks[]")), pat("phi((9223372036854775808 | (↺ ^ litefs.(*DB).databasePageChecksum(p0, (((p1 * 256) + phi((↺ + 1)|0)) + 1))))|0)"),
+		"the aggregate stored is the flagged XOR over databasePageChecksum of every slot", "")
 	c.ExpectAll("block-arith/recompute-enum", c.CallArgs(rb, p.PlainCalls("litefs.(*DB).databasePageChecksum"), 1), pat("(((p1 * 256) + phi((↺ + 1)|0)) + 1)"), 1, "recomputeBlockChksum enumerates block*256+i+1", "an off-by-one drops or double-counts a page at a 256-page boundary")
 	c.Guarded("block-arith/recompute-bound", rb, p.PlainCalls("litefs.(*DB).databasePageChecksum"), gs(GP("(phi((↺ + 1)|0) < 256)", true)), 1, "for i < 256", "")
 	c.Expect("block-arith/page-lookup", joinS(c.returnsOf("litefs.(*DB).databasePageChecksum")), pat("p0.chksums.pages[(p1 - 1)];0"), "databasePageChecksum(p) = pages[p-1] or 0 beyond the slice", "")
